@@ -203,6 +203,14 @@ Proof.
   intro E. apply H. now left.
 Qed.
 
+Lemma gff_write_ok : forall fmt r line, gff_write fmt r = Ok line ->
+  line = tabbed (gff_columns fmt r) ++ gff_attrs_text (f_attrs r).
+Proof.
+  intros fmt r line H. unfold gff_write in H.
+  destruct (bytes_eqb (f_type r) cds && match f_phase r with None => true | Some _ => false end);
+    [discriminate|]. symmetry. congruence.
+Qed.
+
 (* What a written record reads back as, for EVERY sequence id: the id comes back encoded. *)
 Theorem gff_record_readback : forall fmt prs r line,
   gff_wf fmt prs r -> gff_write fmt r = Ok line ->
@@ -211,9 +219,7 @@ Proof.
   intros fmt prs r line Hwf Hw. pose proof (gff_columns_clean fmt prs r Hwf) as Hcols.
   destruct Hwf as (Hs & Hso & Hty & Hst & Hen & Hsc & Hat).
   destruct (attrs_text_clean _ Hat) as [Hane Haav].
-  unfold gff_write in Hw.
-  destruct (bytes_eqb (f_type r) cds && match f_phase r with None => true | Some _ => false end);
-    [discriminate|]. inversion Hw as [Hl]. clear Hw.
+  apply gff_write_ok in Hw. subst line.
   assert (H10 : ~ In 10 (tabbed (gff_columns fmt r) ++ gff_attrs_text (f_attrs r))).
   { intro Hin. apply in_app_or in Hin. destruct Hin as [Hin|Hin].
     - apply In_tabbed in Hin. destruct Hin as [E|(f & Hf & Hc)]; [discriminate|].
@@ -253,7 +259,7 @@ Theorem gff_record_roundtrip : forall fmt prs r line,
             /\ l_seqid l = f_seqid r.
 Proof.
   intros fmt prs r line Hwf Hp Hw. exists (gff_expected r).
-  split; [now apply gff_record_readback|].
+  split; [eapply gff_record_readback; eassumption|].
   unfold gff_expected, owned_of_lazy, canon_feature. cbn [l_start l_end l_score l_strand l_phase l_attrs l_seqid l_source l_type fst snd].
   rewrite (pct_enc_id seqid_set (f_seqid r) Hp).
   destruct (f_score r), (f_phase r); cbn [option_map]; split; reflexivity.
